@@ -72,7 +72,34 @@ def _vals(rng, shape, kind="normal", big=True):
     if kind == "alphabet":
         # (1e8 only where it does not enter a trigonometric phase: k.x of order 1e16 has no meaningful cosine)
         return rng.choice([0.0, 1.0, -1.0, 0.5, 1e8, 1e-8] if big else [0.0, 1.0, -1.0, 0.5, 2.5, 1e-8], size=shape)
+    if kind == "tiny":
+        # amplitude-like arguments far below and around machine epsilon (the sums are linear in them)
+        return rng.choice([0.0, 1.0, -1.0, 1e-17, 3e-16, 1e-300] if big else [0.0, 1.0, -1.0, 0.5, 2.5, 1e-8], size=shape)
     return rng.normal(size=shape)
+
+
+def wrapper_call(kernel, args, nt):
+    """the Python wrapper in front of a kernel, called with the same arguments"""
+    a = tuple(x.copy() if isinstance(x, np.ndarray) else x for x in args[:-1])
+    if kernel == "summate":
+        return genmod._summate(*a, nt)
+    if kernel == "summate_incompr":
+        return genmod._summate_incompr(*a, nt)
+    if kernel == "summate_fourier":
+        return genmod._summate_fourier(*a, nt)
+    if kernel == "calc_field_krige":
+        return krigemod._calc_field_krige(*a, nt)
+    if kernel == "calc_field_krige_and_variance":
+        return krigemod._calc_field_krige_and_variance(*a, nt)
+    if kernel == "unstructured":
+        return vmod._unstructured(a[0], a[1], a[2], estimator_type=a[3], distance_type=a[4], num_threads=nt)
+    if kernel == "directional":
+        return vmod._directional(*a, num_threads=nt)
+    if kernel == "structured":
+        return vmod._structured(a[0], a[1], nt)
+    if kernel == "ma_structured":
+        return vmod._ma_structured(a[0], a[1].astype(bool), a[2], nt)
+    raise KeyError(kernel)
 
 
 def make_input(kernel, shape, seed, kind="normal"):
@@ -179,6 +206,13 @@ def case_conform(case):
         return r.done(outcome="IDX")
     rc = getattr(CMOD[mod], kernel)(*cargs)
     r.true("compiled artefact == plain interpretation of its own source (bit-wise)", _bits(ri) == _bits(rc), info={"interp": [np.asarray(a).ravel()[:4].tolist() for a in _tup(ri)], "compiled": [np.asarray(a).ravel()[:4].tolist() for a in _tup(rc)]}, **extra)
+    # the Python wrapper in front of the kernel forwards exactly these arguments
+    for nt in (None, 2):
+        try:
+            rw = wrapper_call(kernel, args, nt)
+            r.true("Python wrapper == kernel called directly (bit-wise)", _bits(rw) == _bits(rc), info={"wrapper": [np.asarray(a).ravel()[:4].tolist() for a in _tup(rw)], "kernel": [np.asarray(a).ravel()[:4].tolist() for a in _tup(rc)]}, threads=nt, **extra)
+        except Exception as e:  # noqa
+            r.fail("Python wrapper raised on an input the kernel accepts", repr(e)[:200], "result", threads=nt, **extra)
     rd = defining(kernel, args)
     if kernel == "directional":
         v, c, margin = rd
@@ -367,6 +401,14 @@ def case_wrappers(case):
                 v, c = ov.unstructured(f, [0.0, 1.0, 2.0, 4.5], dist, "m")
                 got = gs.vario_estimate(pos, f, [0.0, 1.0, 2.0, 4.5], return_counts=True)
                 r.true("vario_estimate == defining sums under this thread setting", bool(np.array_equal(got[2], c) and np.allclose(got[1], v, rtol=1e-12, atol=1e-14)), threads=nt, **extra)
+                # directional call: the search mode handed to the kernel is derived from all direction pairs
+                posd = rng.uniform(0, 4, size=(2, 9))
+                dist, dvec = ov.euclid(posd)
+                for dirs in ([[1.0, 0.0], [0.0, 1.0], [math.cos(0.17), math.sin(0.17)]], [[1.0, 0.0], [0.0, 1.0]], [[1.0, 0.0], [math.cos(0.5), math.sin(0.5)], [0.0, 1.0], [math.cos(2.2), math.sin(2.2)]]):
+                    ev, ec, margin = ov.directional(f, [0.0, 1.0, 2.0, 4.5], dist, dvec, dirs, math.pi / 8, None, "m")
+                    gd = gs.vario_estimate(posd, f, [0.0, 1.0, 2.0, 4.5], direction=dirs, angles_tol=math.pi / 8, return_counts=True)
+                    if not 0 < margin < 1e-9:
+                        r.true("directional vario_estimate == defining sums under this thread setting", bool(np.array_equal(gd[2], ec) and np.allclose(gd[1], ev, rtol=1e-12, atol=1e-14)), info={"got": np.asarray(gd[2]).tolist(), "exp": np.asarray(ec).tolist()}, threads=nt, ndirs=len(dirs), **extra)
             if exp is not None:
                 r.true("wrapper dispatches to the kernel result", out == exp, threads=nt, **extra)
             if ref is None:
@@ -417,10 +459,10 @@ def run(chk):
     cc = []
     for kernel in KERNELS:
         for shp in shapes_for(kernel, tier):
-            for kind in ("alphabet", "normal"):
+            for kind in ("alphabet", "normal") + (("tiny",) if kernel.startswith(("summate", "calc_field")) else ()):
                 for s in range(2 if tier == "quick" else 6):
                     cc.append({"kernel": kernel, "shape": shp, "seed": 10 * seed + s, "kind": kind})
-    chk.run("conformance", case_conform, cc, rule="9 kernels x array extents from {0,1,2,3,5} per axis (dims 1-4) x value kinds {alphabet 0,+-1,.5,1e+-8,NaN / normal} x seeds: interpreted current .pyx == installed compiled artefact bit-wise == independent defining sums", chunk=16)
+    chk.run("conformance", case_conform, cc, rule="9 kernels x array extents from {0,1,2,3,5} per axis (dims 1-4) x value kinds {alphabet 0,+-1,.5,1e+-8,NaN / normal / tiny amplitudes 1e-17, 3e-16, 1e-300} x seeds: interpreted current .pyx == installed compiled artefact bit-wise == Python wrapper (num_threads None, 2) bit-wise == independent defining sums", chunk=16)
     sc = []
     tiny = {
         "summate": [{"dim": 1, "N": 1, "X": 2}, {"dim": 2, "N": 2, "X": 3}, {"dim": 1, "N": 1, "X": 5}],
